@@ -93,6 +93,8 @@ class IdealManager(object):
         from axolotl.untrustedidentityexception import UntrustedIdentityException
         o = self.outcome
         if o == "ok":
+            if isinstance(self.plaintext, dict):
+                return self.plaintext[self._api]
             return self.plaintext
         self.outcome = "ok" if o in ("no-session",) else o
         if o == "duplicate":
@@ -107,13 +109,18 @@ class IdealManager(object):
             raise UntrustedIdentityException(who, None)
         raise ValueError(o)
 
+    _api = None
+
     def decrypt_pkmsg(self, sender, data, unpad):
+        self._api = "pkmsg"
         return self._decrypt(sender)
 
     def decrypt_msg(self, sender, data, unpad):
+        self._api = "msg"
         return self._decrypt(sender)
 
     def group_decrypt(self, groupid, participantid, data):
+        self._api = "skmsg"
         return self._decrypt(participantid)
 
     def group_create_session(self, groupid, participantid, skmsgdata):
@@ -366,21 +373,33 @@ def _payload(kind):
         m.conversation = "hello group"
         m.sender_key_distribution_message.group_id = "49159-14@g.us"
         m.sender_key_distribution_message.axolotl_sender_key_distribution_message = b"\x01\x02"
+    elif kind in ("extended-text", "extended-text+key-distribution"):
+        # a reply quoting somebody / a link preview; with the sender key merged in when it is re-sent to one member after a retry request
+        m.extended_text_message.text = "hello world" if kind == "extended-text" else "hello group"
+        m.extended_text_message.context_info.stanza_id = "QUOTED1"
+        m.extended_text_message.context_info.participant = "4915900000003@s.whatsapp.net"
+        if kind.endswith("key-distribution"):
+            m.sender_key_distribution_message.group_id = "49159-14@g.us"
+            m.sender_key_distribution_message.axolotl_sender_key_distribution_message = b"\x01\x02"
     return m.SerializeToString()
 
 
 def h_receive(ctx, enctype, outcome, payload):
     plaintext = _payload(payload)
+    if enctype == "pkmsg+skmsg":
+        # a member's first message to a group: the sender key travels in a pairwise envelope, the content under the sender key, in ONE stanza
+        plaintext = {"pkmsg": _payload("key-distribution-only"), "msg": _payload("key-distribution-only"), "skmsg": _payload(payload)}
     st, bottom, app, mgr, sl, rl = _stack(ctx, sessions=True, outcome=outcome, plaintext=plaintext)
     N = SC.N()
-    group = enctype == "skmsg" or "key-distribution" in payload or ctx.flag("in_group")      # sender keys are distributed in group context
+    group = enctype in ("skmsg", "pkmsg+skmsg") or "key-distribution" in payload or ctx.flag("in_group")      # sender keys are distributed in group context
     mid, sender = H.zstr(ctx, "id"), _jid(ctx, "from", group)
     attrs = {"id": mid, "from": sender, "type": "text", "t": H.numstr(ctx, "t", 1), "notify": H.zstr(ctx, "notify")}
     participant = None
     if group:
         participant = _jid(ctx, "participant")
         attrs["participant"] = participant
-    node = N("message", attrs, [N("enc", {"type": enctype, "v": "2"}, None, b"\x33\x08ciphertext")])
+    encs = [N("enc", {"type": t_, "v": "2"}, None, b"\x33\x08ciphertext") for t_ in enctype.split("+")]
+    node = N("message", attrs, encs)
     bottom.inject(node)
     down, up = bottom.down, app.up
     receipts = [n for n in down if n.tag == "receipt"]
@@ -393,7 +412,8 @@ def h_receive(ctx, enctype, outcome, payload):
             obs.append(("decrypted message is delivered exactly once (got %d)" % len(up), len(up) == 1))
             if len(up) == 1:
                 e = up[0]
-                obs.append(("delivered with the original content", e.getBody() == ("hello world" if payload == "text" else "hello group")))
+                body = e.getBody() if hasattr(e, "getBody") else getattr(e, "text", None)
+                obs.append(("delivered with the original content", body == ("hello group" if payload.endswith("+key-distribution") else "hello world")))
                 obs.append(("delivered with the original id", SC.val_eq(e.getId(), mid)))
                 obs.append(("delivered with the original sender", SC.val_eq(e.getFrom(), sender)))
                 if group:
@@ -701,10 +721,12 @@ def cases(tier):
     cs.append(dict(name="restart[real managers and stores]", fn=h_restart_conversation, keep_samples=12))
     cs.append(dict(name="send2[1:1]", fn=h_send_two, args=("contact",)))
     cs.append(dict(name="send2[group]", fn=h_send_two, args=("group",)))
+    for payload in ("text", "extended-text"):
+        cs.append(dict(name="receive[pkmsg+skmsg,ok,%s]" % payload, fn=h_receive, args=("pkmsg+skmsg", "ok", payload)))
     for enctype in ("pkmsg", "msg", "skmsg"):
         for outcome in ("ok", "duplicate", "invalid-message", "invalid-key-id", "no-session", "untrusted"):
             if enctype == "skmsg" and outcome in ("invalid-key-id", "untrusted"):
                 continue
-            for payload in (("text", "key-distribution-only", "text+key-distribution") if outcome == "ok" else ("text",)):
+            for payload in (("text", "key-distribution-only", "text+key-distribution", "extended-text", "extended-text+key-distribution") if outcome == "ok" else ("text",)):
                 cs.append(dict(name="receive[%s,%s,%s]" % (enctype, outcome, payload), fn=h_receive, args=(enctype, outcome, payload)))
     return cs
